@@ -40,6 +40,8 @@ RESPS = [
     {"o": "resp", "status": 204}, {"o": "resp", "status": 200, "then": "stray"},
     # responses urllib3 discards itself (redirect / status retry) that have NO body to drain
     {"o": "resp", "status": 302, "keep": True, "loc": "/r", "body_len": 0}, {"o": "resp", "status": 503, "keep": True, "body_len": 0}, {"o": "resp", "status": 200, "body_len": 0},
+    # a retried status whose Retry-After pause is interrupted (KeyboardInterrupt inside time.sleep): seed C01-H
+    {"o": "resp", "status": 503, "keep": True, "ra": 1, "sleep_interrupt": True},
 ]
 OUTCOMES = FAULTS_CONNECT + FAULTS_SEND + FAULTS_RECV + RESPS
 RETRIES = [
@@ -83,6 +85,8 @@ def _script_outcome(o):
     if o["o"] == "resp":
         hdrs = [["Location", o.pop("loc")]] if "loc" in o else []
         o.setdefault("body_len", 40)
+        if "ra" in o:
+            hdrs.append(["Retry-After", str(o.pop("ra"))])
         o["headers"] = hdrs
     return o
 
@@ -243,6 +247,7 @@ def run_case(case) -> list[Failure]:
         _inspect(fails, sig0, pool, net, N, case, owning_closes, "after-history", brief)
         # ---- the pool still works (the script is over: from here on the server answers 200)
         srv.pos = len(srv.script)
+        net.clock.interrupt = None  # an interrupt that was armed but met no pause must not hit the final request
         lost = owning_closes
         try:
             r = obj.urlopen("GET", base + "/final", preload_content=True, pool_timeout=0.01 if case["block"] else None, retries=urllib3.Retry(total=8, allowed_methods=None, status_forcelist=[503], raise_on_status=False, redirect=3))
